@@ -144,6 +144,11 @@ Definition assembly_known (ops : list rop) : bool :=
 Definition assembly_strict (ops : list rop) : bool :=
   forallb (fun rt => strictly_first (chain ops (rt_router rt))) (reachable_routes ops).
 
+(* a reachable route whose chain has NO BasicAuth (and only known middlewares): served to anybody *)
+Definition open_route (ops : list rop) (rt : route) : bool :=
+  negb (existsb (mw_eqb BasicAuth) (chain ops (rt_router rt))) && forallb known (chain ops (rt_router rt)).
+Definition open_check (ops : list rop) : bool := existsb (open_route ops) (reachable_routes ops).
+
 (* all valuations of the first n atoms *)
 Fixpoint envs (n : nat) : list (list bool) :=
   match n with
